@@ -6,6 +6,7 @@ import (
 	"runtime/debug"
 	"strings"
 	"sync"
+	"sync/atomic"
 	"time"
 
 	"verif/vlib"
@@ -25,8 +26,8 @@ const (
 )
 
 type apiState struct {
-	mu        sync.Mutex
-	confirmed bool
+	mu        sync.Mutex  // serialises investigations (slow path only)
+	confirmed atomic.Bool // set once a non-return has been confirmed
 }
 
 var apiStates sync.Map // api -> *apiState
@@ -76,10 +77,7 @@ func panicSite(stack string) string {
 // returned normally.
 func guarded(c *vlib.Case, api string, witness func() map[string]interface{}, fn func() interface{}) (interface{}, bool) {
 	st := stateOf(api)
-	st.mu.Lock()
-	conf := st.confirmed
-	st.mu.Unlock()
-	if conf {
+	if st.confirmed.Load() {
 		c.Undecided("skipped-after-confirmed-non-termination:" + api)
 		return nil, false
 	}
@@ -106,7 +104,7 @@ func guarded(c *vlib.Case, api string, witness func() map[string]interface{}, fn
 	c.Count("guard.first_limit_missed."+api, 1)
 	st.mu.Lock()
 	defer st.mu.Unlock()
-	if st.confirmed {
+	if st.confirmed.Load() {
 		c.Undecided("skipped-after-confirmed-non-termination:" + api)
 		return nil, false
 	}
@@ -128,7 +126,7 @@ func guarded(c *vlib.Case, api string, witness func() map[string]interface{}, fn
 		return finish(r)
 	case <-time.After(secondLimit):
 	}
-	st.confirmed = true
+	st.confirmed.Store(true)
 	w := witness()
 	w["limits"] = fmt.Sprintf("%v, then %v alone", firstLimit, secondLimit)
 	c.Violation(api+"/terminates", fmt.Sprintf("call did not return within %v and, repeated alone, not within %v either (typical cost of such a call: well below a second)", firstLimit, secondLimit), w)
